@@ -1189,6 +1189,8 @@ func main() {
 		}
 		fmt.Fprintf(&sb, "\tls%d()\n}\n", k)
 	}
+	tpDecl, tpExprs := tpBuild()
+	sb.WriteString(tpDecl)
 	var groups *gsOut
 	if *grpN >= 0 {
 		var decl string
@@ -1257,6 +1259,26 @@ func main() {
 			pcs = append(pcs, patCase{str: s})
 		}
 		fillMatrix(m, ser, orc, ctx, state, pcs, b.types, typesOf(fmt.Sprintf("B%d_", bi), b.types))
+		o.BT = append(o.BT, m)
+	}
+	// type parameters of nested generic declarations under repeated variables (tparams.go)
+	tpTys, err := tpTypes(u.Infos["example.com/c10/pool"], tpExprs)
+	if err != nil {
+		fail(err)
+	}
+	for hi := range tpExprs {
+		m := &matrix{Name: fmt.Sprintf("tparams.h%d", hi)}
+		var pcs []patCase
+		for _, s := range append(append([]string{}, pairPats...), tpPats...) {
+			pcs = append(pcs, patCase{str: s})
+		}
+		// (shown with the declarations the type parameters belong to)
+		host := " -- a field type in: " + strings.Join(strings.Fields(tpHosts[hi].open), " ") + " ... } }"
+		shown := make([]string, len(tpExprs[hi]))
+		for i, e := range tpExprs[hi] {
+			shown[i] = e + host
+		}
+		fillMatrix(m, ser, orc, ctx, state, pcs, shown, tpTys[hi])
 		o.BT = append(o.BT, m)
 	}
 	o.Unsup = ser.Unsupported
